@@ -202,7 +202,11 @@ def run_case(case, ctx):
                 out.append(obs(f"mcs|{bridge.exc_symptom(e)}", {"message": str(e)[:200], "scenario": sc, "engine": e2}))
         ctx.ev(1)
         try:
-            got = create_optimizer(es).minimal_correction_subsets(wcnf, ignore=ignore)
+            if not ignore:
+                ctx.stratum("p2:default-ignore-argument")
+                got = create_optimizer(es).minimal_correction_subsets(wcnf)
+            else:
+                got = create_optimizer(es).minimal_correction_subsets(wcnf, ignore=ignore)
         except BaseException as e:  # noqa: BLE001
             out.append(obs(f"mcs|{bridge.exc_symptom(e)}", {"message": str(e)[:200], "scenario": sc}))
             continue
